@@ -33,7 +33,7 @@ def run_one(d: Path):
 
 def main():
     ds = sorted(p for p in (VERIF / "neutral").iterdir() if p.is_dir() and (p / "patch.diff").exists())
-    with ThreadPoolExecutor(max_workers=8) as ex:
+    with ThreadPoolExecutor(max_workers=14) as ex:
         results = list(ex.map(run_one, ds))
     lines = ["# Behaviour-preserving refactors vs checks", "", "Each row: a refactor that keeps behaviour (see its meta.json: kind, why_equivalent; the full test-suite passes with it) applied to a scratch copy; expected: all 20 checks silent.", "", "| refactor | result |", "|---|---|"]
     bad = []
